@@ -514,12 +514,18 @@ Definition hmmer_to_json (cur_schema : Z) (r : hmmerres) : jv :=
 
 Definition hit_field (k : list Z) (h : hhit) : jv := jgetd k (combine hit_fields h) JNull.
 
-(* hit.score >= min_score and hit.evalue <= max_evalue (left to right, short-circuit) *)
+(* hit.score >= min_score and hit.evalue <= max_evalue (left to right, short-circuit).  The limits are INCLUSIVE here
+   while hmmer.build_hits drops `hsp.bitscore <= min_score or hsp.evalue >= max_evalue` (exclusive): finding FC11b
+   refilter_inclusive_limits (recorded, not repaired: test_hmmer.py::TestResults::test_refilter_higher_score and
+   test_refilter_lower_evalue pin the inclusive test) *)
 Definition hit_passes (max_evalue min_score : q) (h : hhit) : res bool :=
   do s <- as_num (hit_field K_score h);
   if qle min_score s then
     do e <- as_num (hit_field K_evalue h); Ok (qle e max_evalue)
   else Ok false.
+(* hmmer.build_hits keeps an HSP unless `hsp.bitscore <= min_score or hsp.evalue >= max_evalue` *)
+Definition fresh_run_keeps (max_evalue min_score score evalue : q) : bool :=
+  negb (qle score min_score || qle max_evalue evalue).
 
 Fixpoint filterR {A} (f : A -> res bool) (l : list A) : res (list A) :=
   match l with
